@@ -114,6 +114,9 @@ pub struct ExecCfg {
     pub timeout_s: u32,
     /// attacker choice points also before path-taking syscalls on procfs descriptors (racing mounts, C06)
     pub attack_procfs: bool,
+    /// part of the scenario, not explored: when the traced worker is about to issue the first syscall with this name and path,
+    /// the mutation is applied (e.g. an over-mount placed inside a documented race window)
+    pub scripted: Option<(String, String, Mutation)>,
 }
 
 #[derive(Default, Debug)]
@@ -207,6 +210,7 @@ pub fn execute(cfg: &ExecCfg, ch: &mut Chooser) -> MResult<ExecOut> {
     let mut eagain_left: u32 = 0;
     let mut exhaust = false;
     let mut mounted: BTreeSet<String> = BTreeSet::new();
+    let mut scripted_done = false;
 
     // advance worker w until it is parked at a tree-relevant syscall entry (Sched/Attack) or has left the window
     // returns Ok(()) normally
@@ -243,6 +247,13 @@ pub fn execute(cfg: &ExecCfg, ch: &mut Chooser) -> MResult<ExecOut> {
                 // (between the two calls the library only builds the error value: gettid, stat/readlink of its own fd links)
                 let spurious_retry = ev.name == "openat2" && out.events.iter().rev().filter(|p| p.w == w).find(|p| p.tree_rel || p.name == "openat2")
                     .map(|p| p.name == "openat2" && p.injected.is_none() && p.rval == -(libc::EAGAIN as i64) && p.path == ev.path).unwrap_or(false);
+                if let Some((n, p, m)) = &cfg.scripted {
+                    if !scripted_done && ev.name == *n && ev.path.as_deref() == Some(p.as_str()) {
+                        m.apply_in(&mut mounted, ts[w].pid)?;
+                        out.applied.push((out.events.len(), format!("scripted:{}", m.name)));
+                        scripted_done = true;
+                    }
+                }
                 match &cfg.mode {
                     _ if spurious_retry => {}
                     Mode::Attack(muts) if ev.tree_rel => {
